@@ -1459,9 +1459,8 @@ method or constructor of some type."""
         split = self._split_uscored_by_type(subsymbol)
         if split is None:
             if func.is_constructor:
-                if uscored_prefix in func.symbol:
-                    subsym_idx = func.symbol.find(subsymbol)
-                    func.name = func.symbol[(subsym_idx + len(uscored_prefix) + 1):]
+                if subsymbol.startswith(uscored_prefix + '_'):
+                    func.name = subsymbol[len(uscored_prefix) + 1:]
                 name = func.name
         else:
             _, name = split
